@@ -149,13 +149,40 @@ def audit_sources(files):
     return hits
 
 
+def _pidfile():
+    return os.path.join(os.environ.get("NSL_SCRATCH") or tempfile.gettempdir(), "driver.pids")
+
+
+def _register_driver(pid):
+    try:
+        with open(_pidfile(), "a") as f: f.write("%d\n" % pid)
+    except OSError:
+        pass
+
+
+def kill_drivers():
+    """Every model-driver process started by this check (also by its worker processes): none may outlive the check — an
+    orphaned driver keeps the check's output pipe open and blocks whoever waits for the check's output."""
+    import signal
+    try:
+        pids = [int(x) for x in open(_pidfile()).read().split()]
+    except (OSError, ValueError):
+        return
+    for pid in pids:
+        try:
+            if b"nsl_driver" in open("/proc/%d/cmdline" % pid, "rb").read(): os.kill(pid, signal.SIGKILL)
+        except (OSError, ProcessLookupError):
+            pass
+
+
 class Driver:
     """One model-driver process; line in, line out."""
 
     def __init__(self):
         ensure_driver()
-        self.p = subprocess.Popen([DRIVER], stdin=subprocess.PIPE, stdout=subprocess.PIPE, text=True, bufsize=1)
+        self.p = subprocess.Popen([DRIVER], stdin=subprocess.PIPE, stdout=subprocess.PIPE, stderr=subprocess.DEVNULL, text=True, bufsize=1)
         self.n = 0
+        _register_driver(self.p.pid)
 
     def ask(self, line):
         assert "\n" not in line
